@@ -62,6 +62,9 @@ def run(idx: ProgramIndex, rep: Report, tier: str):
     evaluate_kernel_restore(idx, rep)
     lazy_reconstruction(idx, rep)
     multi_output_guard(idx, rep)
+    rep.rule("C06-6", "x1 and x2 (rows and columns) are treated alike: the second input of every kernel evaluation / lazy re-construction is the twin of the first under the swap x1<->x2, row<->col")
+    from .common_twin import twin_obligations
+    twin_obligations(idx, rep, "C06-6", 30)
 
 
 # ---- C06-1 ---------------------------------------------------------------------------------------------------------
